@@ -24,7 +24,7 @@ def run(tier, seed, work, replay):
     os.makedirs(sdir)
     env = E.go_env()
     env.update({"VERIF_SERVE_DIR": sdir, "VERIF_REPO": E.REPO, "VERIF_WORK": work.dir, "TMPDIR": work.dir})
-    srv = subprocess.Popen([kbin, "-test.run", "^TestVerifServe$", "-test.timeout", "900s"], cwd=os.path.join(E.REPO, "cmd/keymasterd"),
+    srv = subprocess.Popen([kbin, "-test.run", "^TestVerifServe$", "-test.timeout", "7200s"], cwd=os.path.join(E.REPO, "cmd/keymasterd"),
                            env=env, stdout=open(work.path("serve.log"), "w"), stderr=subprocess.STDOUT)
     try:
         ready = os.path.join(sdir, "ready.json")
@@ -49,7 +49,9 @@ def run(tier, seed, work, replay):
                     cases.append({"pref": p, "mode": m, "agent": a, "agentmode": am})
         cp = work.path("cases.ndjson")
         E.write_ndjson(cp, cases)
-        epath, _ = E.run_harness(cbin, PROP, work, cases=cp, env={"VERIF_SERVERS": ready}, cwd=os.path.join(E.REPO, "cmd/keymaster"), timeout=1500)
+        epath, _ = E.run_harness(cbin, PROP, work, cases=cp, env={"VERIF_SERVERS": ready}, cwd=os.path.join(E.REPO, "cmd/keymaster"), timeout=5400)
+        if srv.poll() is not None:
+            raise E.Inconclusive("the server harness exited while the client runs were in progress:\n" + open(work.path("serve.log")).read()[-1500:])
     finally:
         open(os.path.join(sdir, "stop"), "w").close()
         try:
